@@ -323,7 +323,12 @@ func (pod *Pod) checkAndConvertNamedPortsInConnection(conns *common.ConnectionSe
 			podProtocol, portNum := pod.ConvertPodNamedPort(namedPort)
 			if podProtocol == string(protocol) && portNum != common.NoPort { // matching port and protocol
 				connsCopy.ReplaceNamedPortWithMatchingPortNum(protocol, namedPort, portNum)
+			} else { // the pod has no such port: the named port allows nothing on this pod
+				connsCopy.ReplaceNamedPortWithMatchingPortNum(protocol, namedPort, common.NoPort)
 			}
+		}
+		if connsCopy.AllowedProtocols[protocol].IsEmpty() {
+			delete(connsCopy.AllowedProtocols, protocol)
 		}
 	}
 	return connsCopy
